@@ -18,6 +18,28 @@ import (
 var c13NumKeys = []string{"1", "1.0", "1e0", "10e-1", "2", "2.0", "20e-1", "3", "-1", "-1.0", "0", "-0", "0.0", "1.5", "15e-1", "10", "9", "100", "1e2", "0.5", "5e-1", "5E-1", "1E0", "1E+1", "15E-1"}
 var c13StrKeys = []string{"", "a", "b", "ab", "aa", "B", "A", "é", "e", "z", "日", "日本", "😀", "�", "~", "ÿ", "ā", "￿", "𐀀", "a ", " a", "\x7f", "\u0080", "\u07ff", "\u0800", "\ud7ff", "\ue000", "\U00010000", "\U0010ffff"}
 
+// prefixedKeys draws k strings with a common prefix of 0..17 bytes (ASCII, with
+// at most one wider character) followed by 0..2 characters of mixed widths.
+func prefixedKeys(t *rapid.T, k int) []string {
+	plen := rapid.IntRange(0, 17).Draw(t, "prefixlen")
+	prefix := "abcdefghijklmnopq"[:plen]
+	if plen > 0 && rapid.IntRange(0, 3).Draw(t, "wideinprefix") == 0 {
+		at := rapid.IntRange(0, plen-1).Draw(t, "wideat")
+		prefix = prefix[:at] + string(gen.Pick(t, "widerune", []rune{'é', '日', '😀'})) + prefix[at+1:]
+	}
+	tails := []rune{'a', 'z', '~', 0x7f, 0x80, 'é', 'ÿ', 0x7ff, 0x800, '日', '€', 0xd7ff, 0xe000, 0xfffd, 0xffff, 0x10000, '😀', 0x10ffff, '0', ' '}
+	out := make([]string, k)
+	for i := range out {
+		n := rapid.IntRange(0, 2).Draw(t, "taillen")
+		tail := make([]rune, n)
+		for j := range tail {
+			tail[j] = gen.Pick(t, "tailrune", tails)
+		}
+		out[i] = prefix + string(tail)
+	}
+	return out
+}
+
 // c13Verdict checks the validity predicates of sort / sort_by / min / max /
 // min_by / max_by on the result. keys[i] is the key of input element i.
 func c13Verdict(fn string, in []jv.Val, keys []jv.Val, out run.Outcome) string {
@@ -157,6 +179,12 @@ func TestC13_Sort(t *testing.T) {
 		}
 		if rapid.IntRange(0, 4).Draw(t, "manykeys") == 0 {
 			pool = pal
+		}
+		if !numeric && rapid.IntRange(0, 2).Draw(t, "sharedprefix") == 0 {
+			// keys that agree in their first 0..17 bytes and then go on with
+			// characters of different encoded lengths (a comparison by packed
+			// prefixes, by words or by bytes with a wrong tie-break shows here)
+			pool = prefixedKeys(t, rapid.IntRange(2, 6).Draw(t, "nprefixed"))
 		}
 		spoil := -1
 		if n > 0 && rapid.IntRange(0, 7).Draw(t, "spoil") == 0 {
